@@ -116,6 +116,13 @@ class Euler1D:
         neg = (L[1] + cL < 0) & (R[1] + cR < 0) & (u + c < 0)
         return pos, neg
 
+    def margins(self, L, R):
+        """(u_L - c_L, u_R - c_R, u_roe - c_roe, c_roe): each of the first three shifts by exactly U under a common drift U"""
+        g = self.g
+        cL, cR = ph.euler_c(L[0], L[2], g), ph.euler_c(R[0], R[2], g)
+        u, c = ph.roe_average(L[0], L[1], L[2], R[0], R[1], R[2], g)
+        return L[1] - cL, R[1] - cR, u - c, c
+
     def branch(self, L, R):
         """HLL-type branch signature from the reference wave speeds"""
         g = self.g
@@ -184,6 +191,11 @@ class Euler2D(Euler1D):
         self._roe = (un, c, cL, cR)
         return pos, neg
 
+    def margins(self, L, R):
+        self.regime(L, R)
+        un, c, cL, cR = self._roe
+        return L[1] - cL, R[1] - cR, un - c, c
+
     def branch(self, L, R):
         self.regime(L, R)
         un, c, cL, cR = self._roe
@@ -228,6 +240,11 @@ class SW:
         pos = (L[1] - cL > 0) & (R[1] - cR > 0) & (u - c > 0)
         neg = (L[1] + cL < 0) & (R[1] + cR < 0) & (u + c < 0)
         return pos, neg
+
+    def margins(self, L, R):
+        cL, cR = ph.sw_c(L[0], self.g), ph.sw_c(R[0], self.g)
+        u, c = ph.sw_roe(L[0], L[1], R[0], R[1], self.g)
+        return L[1] - cL, R[1] - cR, u - c, c
 
     def branch(self, L, R):
         cL, cR = ph.sw_c(L[0], self.g), ph.sw_c(R[0], self.g)
@@ -428,6 +445,47 @@ def batch_independence(kind, param, flux, L, R, res=None):
     return out
 
 
+DELTAS = [1e-3, 0.03, 0.1, 0.3, 1.0]
+
+
+def regime_boundary_pairs(kind, param, tier):
+    """pairs on the inner edge of the upwind regime of the property ("both states and their Roe average supercritical in the same
+    direction"): relative data (ratios of density/pressure/depth, velocity jumps of either sign up to several sound speeds, tangential
+    jumps in 2D) drifted by the common velocity U that makes the *binding* one of the three conditions hold by delta x c_roe, for every
+    delta of DELTAS, in the + direction; the - direction is their mirror image."""
+    M = build(kind, param)
+    th = tier == "thorough"
+    ratios = [1.0, 1e-2, 1e2, 1e-3, 1e3] + ([1e-6, 1e6, 3.0] if th else [])
+    jumps = [0.0, 0.5, -0.5, 2.0, -2.0, 5.0, -5.0] + ([1.0, -1.0, 10.0, -10.0] if th else [])
+    rows = []
+    if kind == "shallowwater":
+        for hr, j in itertools.product(ratios, jumps):
+            cm = np.sqrt(param * max(1.0, hr))
+            rows.append(((1.0, 0.0), (hr, j * cm)))
+    else:
+        g = param if kind == "euler1d" else param[0]
+        tang = [(0.0, 0.0)] if kind == "euler1d" else [(0.0, 0.0), (1.0, -1.0), (3.0, 0.0), (0.0, -2.0)]
+        for rr, pr, j, (tl, tr) in itertools.product(ratios, ratios[:5], jumps, tang):
+            cm = max(np.sqrt(g * 1.0 / 1.0), np.sqrt(g * pr / rr))
+            if kind == "euler1d":
+                rows.append(((1.0, 0.0, 1.0), (rr, j * cm, pr)))
+            else:
+                rows.append(((1.0, 0.0, tl * cm, 1.0), (rr, j * cm, tr * cm, pr)))
+    L = np.array([r[0] for r in rows], float).T
+    R = np.array([r[1] for r in rows], float).T
+    mL, mR, mroe, c = M.margins(L, R)
+    a = np.minimum(np.minimum(mL, mR), mroe)
+    Ls, Rs = [], []
+    for d in DELTAS:
+        U = d * c - a
+        l, r = L.copy(), R.copy()
+        l[1] += U
+        r[1] += U
+        Ls += [l, M.mirror(r)]
+        Rs += [r, M.mirror(l)]
+    return np.hstack(Ls), np.hstack(Rs)
+
+
 def configs(tier):
     th = tier == "thorough"
     cfg = []
@@ -458,6 +516,12 @@ def shard(arg):
         l, r = L[:, s:s + step], R[:, s:s + step]
         for site, what, i in evaluate(kind, param, flux, l, r, res):
             res.violation(site, what, {"kind": kind, "param": param, "flux": flux, "L": l[:, i].tolist(), "R": r[:, i].tolist()})
+    if kind in ("euler1d", "euler2d", "shallowwater"):
+        lb, rb = regime_boundary_pairs(kind, param, tier)
+        n0 = res.evals
+        for site, what, i in evaluate(kind, param, flux, lb, rb, res):
+            res.violation(site.replace("/upwind/", "/upwind/regime-boundary/"), what, {"kind": kind, "param": param, "flux": flux, "L": lb[:, i].tolist(), "R": rb[:, i].tolist(), "edge": True})
+        res.census["%s/regime-boundary-pairs" % kind] += res.evals - n0
     # batch composition: on the quick alphabet of this configuration (one mixed batch small enough to hold)
     Pq = states_of(kind, param, "quick")
     Lq, Rq = pairs(Pq)
@@ -481,4 +545,4 @@ def replay(case):
         return [(s_, w) for s_, w, i, mode in batch_independence(case["kind"], param, case["flux"], Lq, Rq) if i == case["index"] and mode == case["batch"]]
     L = np.array(case["L"], float)[:, None]
     R = np.array(case["R"], float)[:, None]
-    return [(s, w) for s, w, _ in evaluate(case["kind"], param, case["flux"], L, R)]
+    return [(s.replace("/upwind/", "/upwind/regime-boundary/") if case.get("edge") else s, w) for s, w, _ in evaluate(case["kind"], param, case["flux"], L, R)]
